@@ -194,6 +194,8 @@ def rule_strides(prog, rep):
                     pass
                 conds = [c for ev in I2.events for c, pol in ev.guards if lid in ev.loops]
                 for c in conds:
+                    if c.op == "cmp" and c.args[0] in (">=", ">") and tm.contains(c.args[1], lambda x: x.op == "call" and tm.callee_name(x) == "numpy.iinfo"):
+                        c = T("cmp", {">=": "<=", ">": "<"}[c.args[0]], c.args[2], c.args[1])  # maxint >= maxmult, written the other way round
                     if c.op == "cmp" and c.args[0] in ("<=", "<") and tm.contains(c.args[2], lambda x: x.op == "call" and tm.callee_name(x) == "numpy.iinfo") \
                             and tm.contains(c.args[1], lambda x: x.op == "call" and tm.callee_name(x) == "numpy.cumprod") \
                             and tm.contains(c.args[1], lambda x: x.op == "attr" and x.args[1] == "interacting_shape"):
